@@ -264,6 +264,27 @@ def body(prop, args, seed, t0):
                 return 2
         # --- T6 end
 
+        # --- T9: the translated definitions of harness/tables_t9.py (dictionary forms of operators / arrays / ExpectationValues /
+        # Parities / ValueEstimate and the term-string parser chain: C11) are run in the driver (tag "TRT9") and compared with the Python
+        # functions they came from (harness/translated_check_t9.py); the prelude is compared with CPython for C11 as well
+        if prop == "C11" and driver.available() and (build_ok or common.lake_build(["oqdriver"])[0]):
+            from harness import translated_check_t9 as _t9
+            bad1 = []
+            if "prelude_vs_cpython" not in tie:
+                from harness import prelude_check as _pc
+                tie["prelude_vs_cpython"], bad1 = _pc.run(seed)
+            n9, bad9, untr9, listed9 = _t9.run(seed, only=prop)
+            tie["translated_t9_vs_python_function"] = n9
+            tie["translated_t9_not_compared"] = len(_t9.DROPPED)
+            tie["translated_functions"] = list(tie.get("translated_functions", [])) + listed9
+            tie["untranslatable_now"] = list(tie.get("untranslatable_now", [])) + untr9
+            if bad1 or bad9:
+                for b in (bad1 + bad9)[:10]:
+                    print("  translator/prelude disagreement:", b)
+                print(f"INTERNAL-ERROR property={prop} (the Python->Lean translation misrenders the code; no verdict)")
+                return 2
+        # --- T9 end
+
     except Exception as e:  # noqa: BLE001
         import traceback
         tie = dict(tie, self_check_crashed=f"{type(e).__name__}: {e}"[:300])
